@@ -35,7 +35,8 @@ std::string Request::toString() const
     oss << MethodToString(method) << " " << UrlPathToString(url) << " " << HttpVerToString(http_ver) << CRLF;
     for (auto &head : headers)
         oss << head.first << ": " << head.second << CRLF;
-    oss << "Content-Length: " << body.length() << CRLF;
+    //! 不用 oss << size_t：全局 locale 带千分位时会输出 "12,002"
+    oss << "Content-Length: " << std::to_string(body.length()) << CRLF;
     oss << CRLF;
     oss << body;
 
